@@ -37,7 +37,9 @@ func (t *Dense) T(axes ...int) (err error) {
 		}
 
 		// cool beans. No funny reversals. We'd have to actually do transpose then
-		t.Transpose()
+		if err = t.Transpose(); err != nil {
+			return err
+		}
 		// the data has moved and t.AP has changed: the transform computed above is stale
 		if transform, axes, err = t.AP.T(axes...); err != nil {
 			return handleNoOp(err)
